@@ -567,6 +567,21 @@ def main(argv):
     import importlib
     if argv and argv[0] == "--setup":
         return setup()
+    if len(argv) >= 2 and argv[1] == "--build":
+        # build one property's judge and theorem file under the build lock; print errors
+        sys.path.insert(0, os.path.join(VERIF, "harness"))
+        import translate
+        mod = importlib.import_module(argv[0].lower())
+        with BuildLock():
+            print("translate:", translate.regenerate(getattr(mod, "GEN", []), SRC))
+            ok, log = build_judge(argv[0])
+            print("judge:", "ok" if ok else "FAILED\n" + log[-4000:])
+            pr = build_props(argv[0])
+            print("props:", "ok" if pr["ok"] else "FAILED\n" + pr["log"][-4000:], pr["forbidden"])
+            print("theorems:", pr["theorems"], "obligations:", pr["obligations"])
+            for a in pr["assumptions"]:
+                print("  ", a)
+        return 0 if ok and pr["ok"] else 1
     ap = argparse.ArgumentParser()
     ap.add_argument("prop")
     ap.add_argument("--tier", default=os.environ.get("VERIF_TIER", "quick"))
